@@ -187,12 +187,12 @@ def cases_for(prop, tier, roots, rng, wd=None):
     if prop == "C01":
         for r in roots:
             add(r["fen"], [{"op": "dfs", "depth": 1}], "all generators at the root and after every move")
-        for r in pick(sparse, 120 if T else 6) + pick(dense, 30 if T else 2):
+        for r in pick(sparse, 450 if T else 6) + pick(dense, 90 if T else 2):
             add(r["fen"], [{"op": "dfs", "depth": 2}], "depth-2 tree")
         if T:
-            for r in pick([r for r in roots if r["n"] <= 12], 10):
+            for r in pick([r for r in roots if r["n"] <= 12], 60):
                 add(r["fen"], [{"op": "dfs", "depth": 3}], "depth-3 tree")
-        for r in pick(roots, 300 if T else 14):
+        for r in pick(roots, 900 if T else 14):
             add(r["fen"], [{"op": "walk", "plies": 120 if T else 50, "seed": rng.randrange(1 << 30)}], "random legal game")
         for r in pick(tagged("perft", "castle", "ep", "promo"), 20 if T else 5):
             add(r["fen"], [{"op": "perft", "depth": 2}], "perft(2) per root move")
@@ -201,11 +201,11 @@ def cases_for(prop, tier, roots, rng, wd=None):
     elif prop == "C02":
         for r in roots:
             add(r["fen"], [{"op": "dfs", "depth": 1}], "every legal move made once")
-        for r in pick(roots, 200 if T else 12):
+        for r in pick(roots, 500 if T else 12):
             for h in (HMCS if T else pick(HMCS, 4)):
                 f = with_clocks(r["fen"], h, rng.choice(FMNS))
                 add(f, [{"op": "dfs", "depth": 1}], "clock sweep")
-        for r in pick(roots, 200 if T else 10):
+        for r in pick(roots, 500 if T else 10):
             add(r["fen"], [{"op": "walk", "plies": 400 if T else 150, "seed": rng.randrange(1 << 30)}], "long game")
         for r in pick(tagged("ending"), 10 if T else 3):
             n = 300 if T else 100
@@ -224,12 +224,12 @@ def cases_for(prop, tier, roots, rng, wd=None):
     elif prop == "C03":
         for r in roots:
             add(r["fen"], [{"op": "dfs", "depth": 1}], "make/unmake of every emitted move, legal or not")
-        for r in pick(sparse, 100 if T else 4) + pick(dense, 25 if T else 1):
+        for r in pick(sparse, 350 if T else 4) + pick(dense, 70 if T else 1):
             add(r["fen"], [{"op": "dfs", "depth": 2}], "nested make/unmake")
-        for r in pick(roots, 250 if T else 12):
+        for r in pick(roots, 700 if T else 12):
             for h in (HMCS if T else pick([127, 128, 129, 255, 1000, 4094], 3)):
                 add(with_clocks(r["fen"], h, rng.choice(FMNS)), [{"op": "dfs", "depth": 1}], "clock sweep incl. >= 128")
-        for r in pick(roots, 250 if T else 12):
+        for r in pick(roots, 700 if T else 12):
             n = rng.choice([5, 20, 80, 200]) if T else rng.choice([5, 20, 60])
             add(with_clocks(r["fen"], rng.choice(HMCS), rng.choice(FMNS), n),
                 [{"op": "line", "plies": n, "seed": rng.randrange(1 << 30)}],
@@ -246,16 +246,16 @@ def cases_for(prop, tier, roots, rng, wd=None):
         for r in tagged("ending"):
             for _ in range(12 if T else 3):
                 add(r["fen"], [{"op": "walk", "plies": 200 if T else 80, "seed": rng.randrange(1 << 30)}], "random play into mates/stalemates")
-        for r in pick(roots, 200 if T else 8):
+        for r in pick(roots, 600 if T else 8):
             add(r["fen"], [{"op": "walk", "plies": 150 if T else 60, "seed": rng.randrange(1 << 30)}], "random legal game")
         for f in extra:
             add(f, [{"op": "dfs", "depth": 1}], "move-less positions that still have pseudo-legal moves, and e.p. discovered-check geometry (TLC-filtered candidates)")
     elif prop == "C06":
         for r in roots:
             add(r["fen"], [{"op": "dfs", "depth": 1}], "delta of every emitted move")
-        for r in pick(sparse, 100 if T else 4) + pick(dense, 25 if T else 1):
+        for r in pick(sparse, 350 if T else 4) + pick(dense, 70 if T else 1):
             add(r["fen"], [{"op": "dfs", "depth": 2}], "depth-2 tree")
-        for r in pick(roots, 300 if T else 16):
+        for r in pick(roots, 800 if T else 16):
             n = 300 if T else 100
             add(with_clocks(r["fen"], rng.choice(HMCS), rng.choice(FMNS), n),
                 [{"op": "walk", "plies": n, "seed": rng.randrange(1 << 30)}], "random game, arbitrary clocks")
@@ -667,7 +667,7 @@ def check_board_prop(prop, tier, replay=None):
     else:
         roots = corpus(wd)
         if tier == "thorough":
-            roots = roots + walk_roots(wd, rng, roots, 700)
+            roots = roots + walk_roots(wd, rng, roots, 2500)
         if prop in ("C13", "C14"):
             cases, _ = text_cases(prop, tier, roots, rng, wd)
         else:
